@@ -390,6 +390,18 @@ func (fx *fnExec) cellValue(c ssa.Value) SV {
 	default:
 		panic(vcErr("read of unallocated cell %s", c.Name()))
 	}
+	if fvv, isFV := c.(*ssa.FreeVar); isFV {
+		if _, isSig := t.Underlying().(*types.Signature); isSig {
+			if fn := fx.capturedClosure(fvv); fn != nil {
+				// a captured function variable assigned once, to a closure of the enclosing function: calls through
+				// it are calls of that closure (its captured variables stay unknown here)
+				fx.declare("fv$"+san(c.Name())+"$fn", SInt)
+				v := FnV{Fn: fn, Ref: Term{"fv$" + san(c.Name()) + "$fn", SInt}}
+				fx.st.cells[c] = v
+				return v
+			}
+		}
+	}
 	saveR := fx.curR
 	fx.curR = tTrue
 	// deterministic names: the same captured variable / global read lazily in two states denotes the same value
@@ -418,7 +430,16 @@ func (fx *fnExec) cellValue(c ssa.Value) SV {
 	if !fx.declared[prefix+"$wf"] {
 		fx.declared[prefix+"$wf"] = true
 		fx.wfValue(v)
-		fx.assumeAlive(v)
+		if fvv, isFV := c.(*ssa.FreeVar); isFV && fx.entry != nil && fx.capturedFinal(fvv) {
+			// a captured variable holds what it held when the function was entered: its referents were allocated then
+			// (not merely by now) - read lazily, stated about the entry state
+			save := fx.st
+			fx.st = fx.entry
+			fx.assumeAlive(v)
+			fx.st = save
+		} else {
+			fx.assumeAlive(v)
+		}
 	}
 	fx.curR = saveR
 	fx.st.cells[c] = v
@@ -1885,4 +1906,87 @@ func (fx *fnExec) checkHooksBound() {
 		o.Model = "the hook matches no program point of the function: what it asserted is no longer checked"
 		fx.obls = append(fx.obls, o)
 	}
+}
+
+// capturedFinal: the captured variable fv of the function under verification is never assigned once the closure has
+// been made (neither by the closure itself nor by the enclosing function or its other closures).
+func (fx *fnExec) capturedFinal(fv *ssa.FreeVar) bool {
+	parent := fx.fn.Parent()
+	if parent == nil || closureStores(fx.fn, fv, map[*ssa.Function]bool{}) {
+		return false
+	}
+	idx := -1
+	for i, v := range fx.fn.FreeVars {
+		if v == fv {
+			idx = i
+		}
+	}
+	if idx < 0 {
+		return false
+	}
+	found := false
+	for _, b := range parent.Blocks {
+		for _, in := range b.Instrs {
+			mc, ok := in.(*ssa.MakeClosure)
+			if !ok || mc.Fn != ssa.Value(fx.fn) {
+				continue
+			}
+			found = true
+			a, isAlloc := mc.Bindings[idx].(*ssa.Alloc)
+			if !isAlloc || storesAfter(mc, a) {
+				return false
+			}
+		}
+	}
+	return found
+}
+
+// capturedClosure: the closure a captured function variable denotes, when that variable is final and its only
+// assignment in the enclosing function stores a closure made there.
+func (fx *fnExec) capturedClosure(fv *ssa.FreeVar) *ssa.Function {
+	if !fx.capturedFinal(fv) {
+		return nil
+	}
+	parent := fx.fn.Parent()
+	idx := -1
+	for i, v := range fx.fn.FreeVars {
+		if v == fv {
+			idx = i
+		}
+	}
+	var a *ssa.Alloc
+	for _, b := range parent.Blocks {
+		for _, in := range b.Instrs {
+			if mc, ok := in.(*ssa.MakeClosure); ok && mc.Fn == ssa.Value(fx.fn) {
+				a, _ = mc.Bindings[idx].(*ssa.Alloc)
+			}
+		}
+	}
+	if a == nil {
+		return nil
+	}
+	var fn *ssa.Function
+	n := 0
+	for _, b := range parent.Blocks {
+		for _, in := range b.Instrs {
+			st, ok := in.(*ssa.Store)
+			if !ok || st.Addr != ssa.Value(a) {
+				continue
+			}
+			n++
+			val := st.Val
+			if ct, isCT := val.(*ssa.ChangeType); isCT {
+				val = ct.X
+			}
+			if mc, isMC := val.(*ssa.MakeClosure); isMC {
+				fn, _ = mc.Fn.(*ssa.Function)
+			} else if f, isF := val.(*ssa.Function); isF {
+				fn = f
+			}
+		}
+	}
+	if n != 1 {
+		return nil
+	}
+	return fn
 }
